@@ -142,6 +142,20 @@ def main(argv=None):
                     print("VIOLATION property=%s replay=%s" % (a.pid, tpath))
                     rc = 1
                     reported += 1
+            if not ok2 and t and v.get("prev_tasks"):
+                # still not: the state may have been built by the tasks the same worker ran before
+                hv = dict(v, fn="mc.core:replay_tasks", args={"tasks": list(v["prev_tasks"]) + [t], "key": key})
+                hv.pop("prev_tasks", None)
+                hpath = core.write_replay(a.pid, hv)
+                outs3 = core.confirm_in_fresh_process(a.pid, hpath)
+                ok2 = all(o[0] == 1 for o in outs3)
+                if ok2:
+                    print("violation key=%s sub=%s expected=%s observed=%s (%d occurrence(s)); needs the call "
+                          "history of its explorer worker (%d earlier tasks, listed in the replay file) to manifest"
+                          % (key, v["sub"], str(v["expected"])[:200], str(v["observed"])[:200], len(vs), len(v["prev_tasks"])))
+                    print("VIOLATION property=%s replay=%s" % (a.pid, hpath))
+                    rc = 1
+                    reported += 1
             if not ok2:
                 flaky += 1
                 print("FLAKY key=%s: in-explorer violation did not replay identically in fresh "
